@@ -4,7 +4,7 @@ import math
 from hypothesis import strategies as st
 from lib import cvz
 from lib.gen import fl, rnd, fmt
-from lib.core import Outcome, run_case, fnum
+from lib.core import Outcome, run_case, fnum, pct
 
 ID = "C05"
 LEVEL = "exploration"
@@ -379,3 +379,69 @@ def check_vec(spec, ctx):
 
 PARTS["vector"] = {"strategy": spec_vec, "check": check_vec, "examples": {"quick": 5000, "thorough": 16000}, "sample": lambda s_: {k: v for k, v in s_.items() if k != "steps"}}
 REQUIRED_STRATA["all"] = REQUIRED_STRATA["all"] + ["vector:vec:distanceVec", "vector:vec:distanceDir", "vector:vec:wt"]
+
+
+# --------------------------------------------------------------------------------------------
+# a run continued from a state with different hill widths: every hill keeps the width it was deposited with
+
+@st.composite
+def spec_rewidth(draw, tier):
+    K = draw(st.integers(2, 8))
+    M = draw(st.integers(2, 8))
+    return {"K": K, "M": M, "x": [rnd(draw(fl(0.5, 4.5)), 3) for _ in range(K + M + 1)], "W": rnd(draw(fl(0.1, 2.0)), 2),
+            "hwA": draw(st.sampled_from([1.0, 2.0, 3.0])), "hwB": draw(st.sampled_from([1.0, 1.5, 2.0, 4.0])), "width": draw(st.sampled_from([0.25, 0.5])),
+            "sig_mode": draw(st.booleans())}
+
+
+def check_rewidth(spec, ctx):
+    K, M, w = spec["K"], spec["M"], spec["width"]
+
+    def cfg(hw):
+        wline = "  gaussianSigmas %s" % fmt(0.5 * hw * w) if spec["sig_mode"] else "  hillWidth %s" % fmt(hw)
+        return (cvz.zvar("z0", 1, 0.0, 5.0, w) + "\nmetadynamics {\n  name m\n  colvars z0\n  hillWeight %s\n%s\n  newHillFrequency 1\n  useGrids off\n}\n" % (
+            fmt(spec["W"]), wline))
+    L1 = cvz.header(2, 0) + ["config <<END\n%s\nEND" % cfg(spec["hwA"])]
+    for t in range(K + 1):
+        L1 += [cvz.pos_line_z([spec["x"][t]], 2), "step"]
+    L1.append("savestr")
+    c1 = "\n".join(L1) + "\n"
+    r1 = run_case(c1)
+    if r1.crashed or r1.of("config")[0]["rc"] != 0:
+        return Outcome(False, msg="first segment failed %s %s" % (r1.of("config")[:1], r1.stderr[-300:]), sig="gen_invalid", case_text=c1)
+    state = r1.of("savestr")[0]["state"]
+    L2 = cvz.header(2, 0) + ["setstep %d" % K, "config <<END\n%s\nEND" % cfg(spec["hwB"]), "loadstr %s" % pct(state)]
+    for t in range(K, K + M + 1):
+        L2 += [cvz.pos_line_z([spec["x"][t]], 2), "step"]
+    c2 = "\n".join(L2) + "\n"
+    r2 = run_case(c2)
+    full = c1 + "\n# ---- continuation with other widths ----\n" + c2
+    if r2.crashed:
+        return Outcome(False, msg="crash in the continuation %s" % r2.stderr[-300:], sig="crash", case_text=full)
+    if r2.of("config")[0]["rc"] != 0 or r2.of("load")[0]["rc"] != 0:
+        return Outcome(False, msg="continuation rejected: %s %s" % (r2.of("config")[0]["errs"], r2.of("load")[0]["errs"]), sig="gen_invalid", case_text=full)
+    sA, sB = 0.5 * spec["hwA"] * w, 0.5 * spec["hwB"] * w
+    hills = [(spec["x"][t], sA) for t in range(1, K + 1)]       # deposited at steps 1..K of the first run
+    for s in r2.of("step"):
+        t = s["it"]
+        if s["errbits"]:
+            return Outcome(False, msg="step error %s" % s["errs"], sig="step_error", case_text=full)
+        if t > K:
+            hills.append((spec["x"][t], sB))
+        x = spec["x"][t]
+        E = F = 0.0
+        for c, sg in hills:
+            u = (x - c) ** 2 / (sg * sg)
+            if u <= 23.0:
+                g = spec["W"] * math.exp(-0.5 * u)
+                E += g
+                F += g * (x - c) / (sg * sg)
+        gotE, gotF = s["bias"][0]["E"], s["cv"][0]["f"][0]
+        if abs(gotE - E) > 1e-9 * max(1.0, abs(E)) + 2e-5 * spec["W"] * len(hills) or abs(gotF - F) > 1e-9 * max(1.0, abs(F)) + 2e-4 * spec["W"] * len(hills) / min(sA, sB):
+            return Outcome(False, msg="step %d of a run continued with hill width %r after %d hills of width %r: energy %r force %r; the hills with the widths "
+                           "they were deposited with give %r and %r" % (t, sB, K, sA, gotE, gotF, E, F), sig="rewidth", case_text=full)
+    return Outcome(True, nontrivial=spec["hwA"] != spec["hwB"], cls=("rewidth", "sig" if spec["sig_mode"] else "hw"), strata=["rewidth"] + (["rewidth_changed"] if spec["hwA"] != spec["hwB"] else []),
+                   case_text=full)
+
+
+PARTS["rewidth"] = {"strategy": spec_rewidth, "check": check_rewidth, "examples": {"quick": 1500, "thorough": 12000}, "sample": lambda s_: s_}
+REQUIRED_STRATA = {"all": REQUIRED_STRATA["all"] + ["rewidth:rewidth_changed"]}
